@@ -13,6 +13,7 @@ class Value;
 
 String JsonEncode(const Value& value, bool pretty_print = false);
 Value JsonDecode(const String& data);
+Value JsonDecodeTrusted(const String& data);
 
 }
 
